@@ -57,6 +57,10 @@ META = {
 
 ATOL = 1e-5
 UNIT_TOL = 32
+# ICP accuracy: a returned point is accurate to ICP_DELTA_K·eps·D (D = largest coordinate: float positions are quantised to eps·D/2;
+# clean tree: <= 17 eps·D over N 24..200, both dtypes, |x|/spacing 0..1e5); exact recovery to ICP_REC_K·eps·D (clean: <= 18)
+ICP_DELTA_K = 64
+ICP_REC_K = 256
 RATIOS: dict = {}
 torch.set_num_threads(1)   # tiny tensors: OpenMP fan-out only costs time on a shared machine
 
@@ -768,6 +772,25 @@ def corner_cases(r: random.Random):
         out.append(build_case(fixed, fn, 6, "float64", (8,), "none", corners=[dict(Z, cloud="generic", qkind=k, **sc) for k in
                                                                            ("r22_atol", "r22_atol", "diag_tie", "diag_tie", "r22_atol", "diag_tie", "r22_atol", "diag_tie")],
                               tag="corner-conversion-thresholds"))
+    # round 4 (20): exact coincidences — cube / octahedron clouds and lattices under exact quarter turns: equal singular values
+    # (isotropic M), exactly equal diagonal entries of R, equidistant points; (28) point counts around kernel switch-overs
+    for fn in ("svdtf", "svdstf"):
+        sc = {"scale": 2.0} if fn == "svdstf" else {}
+        out.append(build_case(fixed, fn, 8, "float64", (6,), "none", corners=[dict(Z, cloud="cube", qkind="quarter", tmag=3.0, **sc),
+                                                                           dict(Z, cloud="octa", qkind="quarter", tmag=0.0, **sc),
+                                                                           dict(Z, cloud="cube", qkind="uniform", noise=0.1, **sc),
+                                                                           dict(Z, cloud="cube", qkind="quarter", nkind="mirror", **sc),
+                                                                           dict(Z, cloud="lattice", qkind="quarter", tmag=2.0, **sc),
+                                                                           dict(Z, cloud="octa", qkind="pi", offset=4.0, **sc)], tag="corner-exact-ties"))
+        out.append(build_case(fixed, fn, 6, "float32", (3,), "none", corners=[dict(Z, cloud="octa", qkind="quarter", **sc),
+                                                                           dict(Z, cloud="cube", qkind="quarter", extent=0.5, **sc),
+                                                                           dict(Z, cloud="octa", qkind="identity", tmag=0.0, **sc)], tag="corner-exact-ties"))
+        for N_ in (25, 26, 33, 129):
+            out.append(build_case(fixed, fn, N_, "float32", (2,), "none", corners=[dict(Z, cloud="generic", qkind="uniform", offset=1e4, noise=0.01, **sc),
+                                                                                dict(Z, cloud="aniso", qkind="mid", offset=100.0, tmag=1e4, **sc)],
+                                  tag="corner-kernel-sizes"))
+        out.append(build_case(fixed, fn, 1025, "float32", (), "none", corners=[dict(Z, cloud="generic", qkind="uniform", offset=1e3, noise=0.1, **sc)],
+                              tag="corner-kernel-sizes"))
     # svdstf: the whole scale range of the quantifier and beyond, without scale, default argument
     out.append(build_case(fixed, "svdstf", 8, "float64", (7,), "none", corners=[dict(Z, cloud="generic", qkind="uniform", scale=s) for s in
                                                                             (0.1, 10.0, 1e-3, 1e3, 0.5, 3.0, 1.0)], tag="corner-scale-ladder"))
@@ -782,7 +805,7 @@ def corner_cases(r: random.Random):
 
 def random_align_case(r: random.Random) -> dict:
     fn = r.choice(["svdtf", "svdstf"])
-    N = r.choice([3, 3, 3, 4, 4, 5, 6, 8, 13, 50, 200, r.randint(3, 200)])
+    N = r.choice([3, 3, 3, 4, 4, 5, 6, 8, 13, 50, 200, r.randint(3, 200), r.choice([24, 25, 26, 32, 33, 128, 129])])
     dtype = r.choice(["float64", "float64", "float32"])
     c = r.random()
     batch = () if c < 0.45 else ((r.choice([1, 2, 3, 5]),) if c < 0.85 else (r.choice([1, 2]), r.choice([2, 3])))
@@ -1017,8 +1040,8 @@ def check_icp_gen(ctx: Ctx, spec, use_model=True):
             ctx.fail(case, f"valid: ICP result is not a valid SE3 element (|q|={nq!r})")
             return False
         En = U.mscd(U.apply_vec(X, S64), T64)
-        # the returned points are accurate to delta = 256·eps·D; a squared distance d² then moves by at most 2·delta·d + delta²
-        delta = 256 * eps * D
+        # the returned points are accurate to delta; a squared distance d² then moves by at most 2·delta·d + delta²
+        delta = ICP_DELTA_K * eps * D
         tolE = delta * delta + 2 * delta * math.sqrt(E0) + 64 * eps * E0 + 1e-300
         if not (En <= E0 + tolE):
             ctx.fail(case, f"monotone: ICP result has mean squared closest-point distance {En:.6e} > {E0:.6e} of its initial transform "
@@ -1043,8 +1066,9 @@ def check_icp_gen(ctx: Ctx, spec, use_model=True):
     if spec.get("inside") and (passes_done is None or passes_done >= 1):
         want = U.apply_vec(torch.tensor(truth["t"] + truth["q"], dtype=torch.float64), S64)
         res = float((U.apply_vec(X, S64) - want).abs().max())
-        tolr = 4096 * eps * D * (1 + spec["N"] ** 0.5)
+        tolr = ICP_REC_K * eps * D
         ctx.count("icp.recovery")
+        track(f"icp.recover.{dtype}", res, tolr)
         if not (res <= tolr):
             ctx.fail(case, f"recover: ICP does not recover an exact rigid perturbation inside the basin: max point error {res:.3e} > {tolr:.3e} "
                            f"(angle={spec['ang']}, shift={spec['tr']}, passes={passes_done}, stepper={spec['stepper']})")
@@ -1449,7 +1473,7 @@ def check_icp_history(ctx: Ctx, hs) -> bool:
                 cur0 = S64[b] if eff is None else U.apply_vec(eff.tensor().detach().double().reshape(-1), S64[b])
                 E0, En = U.mscd(cur0, T64[b]), U.mscd(U.apply_vec(O[b], S64[b]), T64[b])
                 D = float(max(S64[b].abs().max(), T64[b].abs().max()))
-                delta = 256 * eps * D
+                delta = ICP_DELTA_K * eps * D
                 if not (En <= E0 + delta * delta + 2 * delta * math.sqrt(E0) + 64 * eps * E0):
                     ctx.fail(case, f"monotone: item {b} of call {ci}: mean squared closest-point distance {En:.6e} > {E0:.6e} of its initial transform "
                                    f"(batch of different items, stepper={hs['stepper']})")
@@ -1465,7 +1489,7 @@ def check_icp_history(ctx: Ctx, hs) -> bool:
                 if basin:
                     ctx.count("icp_hist.basin-items")
                     res = float((U.apply_vec(O[b], S64[b]) - want).abs().max())
-                    tolr = 4096 * eps * D * (1 + N ** 0.5)
+                    tolr = ICP_REC_K * eps * D
                     if not (res <= tolr):
                         ctx.fail(case, f"recover: item {b} of call {ci} (batch of different items) is inside the basin but ICP misses the exact rigid "
                                        f"motion by {res:.3e} > {tolr:.3e} (stepper={hs['stepper']})")
@@ -1924,7 +1948,7 @@ def icp_lifecycle(ctx: Ctx, ls):
                 continue
             cur0 = S64[b] if eff is None else U.apply_vec(eff, S64[b])
             D = float(max(S64[b].abs().max(), T64[b].abs().max()))
-            delta = 256 * eps * D
+            delta = ICP_DELTA_K * eps * D
             if oo == 2:
                 E0, En = U.mscd(cur0, T64[b]), U.mscd(U.apply_vec(O[b], S64[b]), T64[b])
                 if not (En <= E0 + delta * delta + 2 * delta * math.sqrt(E0) + 64 * eps * E0):
@@ -1943,7 +1967,7 @@ def icp_lifecycle(ctx: Ctx, ls):
             if basin:
                 ctx.count("icp_life.basin-items")
                 res = float((U.apply_vec(O[b], S64[b]) - want).abs().max())
-                tolr = 4096 * eps * D * (1 + N ** 0.5)
+                tolr = ICP_REC_K * eps * D
                 if not (res <= tolr):
                     ctx.fail(case, f"recover: step {step} item {b} (batch {bshape}, N={N}, ord={o}) is inside the basin but ICP misses the exact rigid "
                                    f"motion by {res:.3e} > {tolr:.3e}")
@@ -2291,6 +2315,321 @@ def run_epnp_scale(ctx: Ctx, n: int):
     drive(ctx, gens)
 
 
+
+# ----------------------------------------------------------------------------- (28) thresholds hidden inside library kernels
+# point counts on both sides of the switch-overs of torch kernels (cdist 25/26, matmul blocking 32/33, 128/129, 1024/1025) x
+# float32 x clouds far from the origin relative to their spacing, judged by a float64 brute-force closest-point oracle: the
+# theorems `icp_result_mscd_le_init` / `icp_recovers_small_perturbation` say what must hold.
+
+KERNEL_N = [24, 25, 26, 27, 32, 33, 64, 65, 128, 129, 200]
+
+
+def icp_kernel_spec(r: random.Random, **kw) -> dict:
+    spec = {"kind": "icp_kernel", "seed": r.randrange(1 << 30), "N": r.choice(KERNEL_N), "dtype": r.choice(["float32", "float32", "float64"]),
+            "spacing": r.choice([0.5, 1.0, 0.01, 30.0]), "ratio": r.choice([0.0, 3e2, 2e3, 1e4, 1e5]), "init": r.choice(["none", "exact", "near"]),
+            "stepper": r.choice(["default", "default", "fixed1", "fixed3"]), "extra": r.choice([0, 0, 3]), "batch": r.choice([0, 0, 2])}
+    spec.update(kw)
+    return spec
+
+
+def icp_kernel_data(spec, b=0):
+    """jittered lattice (so that the spacing is known), shifted far from the origin, exact small rigid motion about the cloud
+    centre (every point moves by < 0.15 spacing: inside the half-separation basin)"""
+    r = random.Random(spec["seed"] + 977 * b)
+    N, sp = spec["N"], spec["spacing"]
+    side = round(N ** (1 / 3)) + 1
+    pts = [[(i + 0.2 * r.random()) * sp, (j + 0.2 * r.random()) * sp, (k_ + 0.2 * r.random()) * sp]
+           for i in range(side) for j in range(side) for k_ in range(side)]
+    r.shuffle(pts)
+    pts = pts[:N]
+    d = U.q_normalize([r.gauss(0, 1) for _ in range(3)] + [0.0])[:3]
+    off = [spec["ratio"] * sp * v for v in d]
+    src = [[p[j] + off[j] for j in range(3)] for p in pts]
+    ctr = [sum(p[j] for p in src) / N for j in range(3)]
+    rad = max(math.sqrt(sum((p[j] - ctr[j]) ** 2 for j in range(3))) for p in src)
+    ang = 0.08 * sp / rad * r.choice([1.0, 0.3])           # rotation moves the farthest point by <= 0.08 spacing
+    ax = U.q_normalize([r.gauss(0, 1) for _ in range(3)] + [0.0])[:3]
+    q = [ax[0] * math.sin(ang / 2), ax[1] * math.sin(ang / 2), ax[2] * math.sin(ang / 2), math.cos(ang / 2)]
+    R = U.q_to_mat(q)
+    sh = [r.uniform(-0.04, 0.04) * sp for _ in range(3)]
+    tgt = []
+    for p in src:
+        y = U.mat_vec(R, [p[j] - ctr[j] for j in range(3)])
+        tgt.append([y[j] + ctr[j] + sh[j] for j in range(3)])
+    tt = [ctr[j] + sh[j] - U.mat_vec(R, ctr)[j] for j in range(3)]
+    for _ in range(spec["extra"]):
+        tgt.append([ctr[j] + (side + 1 + r.random()) * sp * (1 if j == 0 else r.random()) for j in range(3)])
+    perm = list(range(len(tgt)))
+    r.shuffle(perm)
+    tgt = [tgt[i] for i in perm]
+    return src, tgt, {"q": q, "t": tt}
+
+
+def check_icp_kernel(ctx: Ctx, spec) -> bool:
+    P = pp()
+    case = dict(spec)
+    dt = getattr(torch, spec["dtype"])
+    eps = common.EPS[spec["dtype"]]
+    nb = spec["batch"]
+    items = [icp_kernel_data(spec, b) for b in range(max(nb, 1))]
+    St, S64 = U.to_dtype([it[0] for it in items], spec["dtype"])
+    Tt, T64 = U.to_dtype([it[1] for it in items], spec["dtype"])
+    truths = [torch.tensor(it[2]["t"] + it[2]["q"], dtype=torch.float64) for it in items]
+    init = None
+    if spec["init"] != "none":
+        rows = []
+        for tr in truths:
+            v = tr.clone()
+            if spec["init"] == "near":      # half of the true motion
+                v[:3] = v[:3] + 0.02 * spec["spacing"]
+            rows.append(v.tolist())
+        init = P.SE3(torch.tensor(rows, dtype=torch.float64).to(dt))
+    if not nb:
+        St_, Tt_ = St[0], Tt[0]
+        init_ = None if init is None else init[0]
+    else:
+        St_, Tt_, init_ = St, Tt, init
+    stp = {"default": None, "fixed1": FixedStepper(1), "fixed3": FixedStepper(3)}[spec["stepper"]]
+    try:
+        with warnings.catch_warnings():
+            warnings.simplefilter("ignore")
+            mod = P.module.ICP(stepper=stp) if stp is not None else P.module.ICP()
+            out = mod(St_, Tt_, init=init_) if init_ is not None else mod(St_, Tt_)
+    except Exception as e:  # noqa: BLE001
+        ctx.fail(case, f"raises: ICP raises {type(e).__name__}: {str(e)[:100]} (N={spec['N']}, {spec['dtype']}, |x|/spacing={spec['ratio']})")
+        return False
+    want_shape = ((nb,) if nb else ()) + (7,)
+    if type(out).__name__ != "LieTensor" or tuple(out.shape) != want_shape or out.dtype != dt:
+        ctx.fail(case, f"type: ICP returned {type(out).__name__} {tuple(getattr(out, 'shape', ()))} {getattr(out, 'dtype', None)}, expected SE3 {want_shape} {dt}")
+        return False
+    O = out.tensor().detach().double().reshape(-1, 7)
+    ok = True
+    for b in range(O.shape[0]):
+        cid = dict(case, item=b)
+        if not torch.isfinite(O[b]).all():
+            ctx.fail(cid, "valid: ICP returned non-finite numbers")
+            ok = False
+            continue
+        s64, t64 = S64[b], T64[b]
+        iv = None if init is None else init.tensor().detach().double().reshape(-1, 7)[b]
+        cur0 = s64 if iv is None else U.apply_vec(iv, s64)
+        D = float(max(s64.abs().max(), t64.abs().max()))
+        E0, En = U.mscd(cur0, t64), U.mscd(U.apply_vec(O[b], s64), t64)
+        delta = ICP_DELTA_K * eps * D
+        tolE = delta * delta + 2 * delta * math.sqrt(E0) + 64 * eps * E0
+        track(f"icp_kernel.monotone.{spec['dtype']}", max(En - E0, 0.0), tolE)
+        ctx.count(f"icp_kernel.{spec['dtype']}.{'le25' if spec['N'] <= 25 else 'gt25'}.ratio{spec['ratio']:g}")
+        if not (En <= E0 + tolE):
+            ctx.fail(cid, f"monotone: ICP result has mean squared closest-point distance {En:.6e} (float64 brute force) > {E0:.6e} of its initial "
+                          f"transform (allowance {tolE:.2e}; N={spec['N']}, {spec['dtype']}, spacing {spec['spacing']}, |x|/spacing {spec['ratio']:g}, "
+                          f"init {spec['init']}, stepper {spec['stepper']})")
+            ok = False
+        # half-separation basin in float64 on the values the implementation sees
+        want = U.apply_vec(truths[b], s64)
+        dw = ((want.unsqueeze(1) - t64.unsqueeze(0)) ** 2).sum(-1)
+        img = dw.argmin(-1)
+        d0 = ((cur0 - t64[img]) ** 2).sum(-1)                       # ‖X0 s − X* s‖²
+        other = ((t64[img].unsqueeze(1) - t64.unsqueeze(0)) ** 2).sum(-1)
+        other[torch.arange(len(img)), img] = float("inf")
+        basin = bool((4 * d0 < other.min(-1).values * 0.8).all()) and float(dw.min(-1).values.max()) <= (8 * eps * D) ** 2
+        if basin:
+            ctx.count("icp_kernel.basin")
+            res = float((U.apply_vec(O[b], s64) - t64[img]).abs().max())
+            tolr = ICP_REC_K * eps * D
+            track(f"icp_kernel.recover.{spec['dtype']}", res, tolr)
+            if not (res <= tolr):
+                ctx.fail(cid, f"recover: every point is closer to its image than half the distance to any other target, but ICP misses the exact rigid "
+                              f"motion by {res:.3e} > {tolr:.3e} (N={spec['N']}, {spec['dtype']}, spacing {spec['spacing']}, |x|/spacing {spec['ratio']:g}, "
+                              f"init {spec['init']}, stepper {spec['stepper']})")
+                ok = False
+    return ok
+
+
+def run_icp_kernel(ctx: Ctx, n: int):
+    fixed = random.Random(2526)
+    specs = []
+    for N_ in (25, 26, 33, 129):
+        for dtn in ("float32", "float64"):
+            for ratio in (0.0, 2e3, 1e4, 1e5):
+                specs.append(icp_kernel_spec(fixed, N=N_, dtype=dtn, ratio=ratio, spacing=0.5, init=("none" if (N_ + int(ratio)) % 2 == 0 else "exact"),
+                                             stepper="default", extra=0, batch=0))
+    specs += [icp_kernel_spec(fixed, N=1025, dtype="float32", ratio=2e3, spacing=0.5, init="none", stepper="fixed1", extra=0, batch=0),
+              icp_kernel_spec(fixed, N=60, dtype="float32", ratio=3e3, spacing=1.0, init="near", stepper="fixed3", extra=3, batch=2)]
+    specs += [icp_kernel_spec(ctx.rng) for _ in range(n)]
+    for sp in specs:
+        ctx.note_case(("icp_kernel", sp["N"], sp["dtype"], sp["ratio"], sp["spacing"], sp["init"], sp["stepper"], sp["batch"]), True)
+        check_icp_kernel(ctx, sp)
+
+
+
+# ----------------------------------------------------------------------------- (19) large batches: split consistency + samples
+
+def large_data(seed, shape, N, dtype, mixed=True):
+    """`prod(shape)` alignment problems built with torch (python loops would dominate): generic / planar / mirrored items mixed"""
+    g = torch.Generator().manual_seed(seed)
+    B = int(math.prod(shape))
+    s = torch.randn(B, N, 3, generator=g, dtype=torch.float64)
+    if mixed:
+        s[1::3, :, 2] = 0.0                                     # planar items
+    q = torch.randn(B, 4, generator=g, dtype=torch.float64)
+    q = q / q.norm(dim=-1, keepdim=True)
+    R = U.quat_mat_t(q)
+    t = torch.randn(B, 1, 3, generator=g, dtype=torch.float64) * 3
+    base = s.clone()
+    if mixed:
+        base[2::5, :, 0] = -base[2::5, :, 0]                    # mirrored items: reflection branch
+    tg = base @ R.mT + t + 0.05 * torch.randn(B, N, 3, generator=g, dtype=torch.float64)
+    dt = getattr(torch, dtype)
+    return s.to(dt).reshape(tuple(shape) + (N, 3)), tg.to(dt).reshape(tuple(shape) + (N, 3))
+
+
+def check_large(ctx: Ctx, spec):
+    P = pp()
+    case = dict(spec)
+    shape, N, dtype, what = tuple(spec["shape"]), spec["N"], spec["dtype"], spec["what"]
+    eps = common.EPS[dtype]
+    B = int(math.prod(shape))
+    src, tgt = large_data(spec["seed"], shape, N, dtype, mixed=(what != "EPnP"))     # EPnP: non-degenerate (non-planar) sets only
+    Kc = torch.tensor([[500.0, 0, 320.0], [0, 480.0, 240.0], [0, 0, 1.0]], dtype=getattr(torch, dtype))
+    if what == "EPnP":
+        g = torch.Generator().manual_seed(spec["seed"] + 1)
+        pose = torch.cat([torch.randn(B, 3, generator=g, dtype=torch.float64) * 0.3 + torch.tensor([0.0, 0.0, 8.0]),
+                          torch.nn.functional.normalize(torch.randn(B, 4, generator=g, dtype=torch.float64), dim=-1)], -1)
+        Tp = P.SE3(pose.to(Kc.dtype).reshape(shape + (7,)))
+        tgt = P.point2pixel(src, Kc, Tp)                         # "target" = pixels
+
+    def f(a, b):
+        with warnings.catch_warnings():
+            warnings.simplefilter("ignore")
+            if what == "svdtf":
+                return P.svdtf(a, b)
+            if what == "svdstf":
+                return P.svdstf(a, b, with_scale=spec.get("with_scale", True))
+            if what == "ICP":
+                return P.module.ICP(stepper=FixedStepper(spec.get("passes", 2)))(a, b)
+            return P.module.EPnP(Kc, refine=False)(a, b)
+
+    try:
+        X = f(src, tgt)
+    except Exception as e:  # noqa: BLE001
+        ctx.fail(case, f"raises: {what} raises {type(e).__name__}: {str(e)[:100]} on a batch of shape {shape} ({B} items)")
+        return False
+    dim = 8 if what == "svdstf" else 7
+    if type(X).__name__ != "LieTensor" or tuple(X.shape) != shape + (dim,) or X.dtype != src.dtype:
+        ctx.fail(case, f"type: {what} returned {type(X).__name__} {tuple(getattr(X, 'shape', ()))} for a batch of shape {shape}")
+        return False
+    ok = True
+    Xr = raw(X)
+    if not torch.isfinite(Xr).all():
+        bad = (~torch.isfinite(Xr.reshape(B, dim)).all(-1)).nonzero().flatten()[:3].tolist()
+        ctx.fail(case, f"valid: {what} returns non-finite numbers for items {bad} of a batch of shape {shape} ({B} items)")
+        return False
+    ctx.count(f"large.{what}.{B}")
+    # split consistency along the first batch axis: f(x) = cat(f(x[:a]), f(x[a:])) bit for bit
+    L = shape[0]
+    for a in sorted({1, L // 3, L - 1} - {0, L}):
+        try:
+            Y = torch.cat([raw(f(src[:a], tgt[:a])), raw(f(src[a:], tgt[a:]))], 0)
+        except Exception as e:  # noqa: BLE001
+            ctx.fail(case, f"raises: {what} raises {type(e).__name__} on a part ([:{a}] / [{a}:]) of a batch it accepted as a whole")
+            ok = False
+            continue
+        if not torch.equal(Y, Xr):
+            # torch's batched matmul may take another blocking for another batch size: last-bit differences are legitimate, so every
+            # differing item must be an equally good answer (same cost / objective / pose up to the usual allowance)
+            Yf, Xf_ = Y.reshape(B, dim).double(), Xr.reshape(B, dim).double()
+            idx = (Yf != Xf_).any(-1).nonzero().flatten().tolist()
+            ctx.count("large.split-last-bit-items", len(idx))
+            fs_, ft_ = src.reshape((B,) + tuple(src.shape[len(shape):])), tgt.reshape((B,) + tuple(tgt.shape[len(shape):]))
+            for j in idx[:50]:
+                s64, t64 = fs_[j].double(), ft_[j].double()
+                if what in ("svdtf", "svdstf"):
+                    st = U.stats(s64, t64)
+                    if st["A"] == 0 or st["B"] == 0:
+                        continue
+                    c1, c2 = U.cost_vec(Yf[j], s64, t64), U.cost_vec(Xf_[j], s64, t64)
+                    sc = float(Xf_[j][7]) if what == "svdstf" else 1.0
+                    tol = cost_tol(eps, st, sc, 1 + st["Ds"] / st["ss"] + st["Dt"] / st["st"]) + 64 * common.EPS["float64"] * (st["A"] * sc * sc + st["B"])
+                    same = abs(c1 - c2) <= tol
+                elif what == "ICP":
+                    D_ = float(max(s64.abs().max(), t64.abs().max()))
+                    same = float((U.apply_vec(Yf[j], s64) - U.apply_vec(Xf_[j], s64)).abs().max()) <= ICP_REC_K * eps * D_
+                else:
+                    same = float((Yf[j] - Xf_[j]).abs().max()) <= 1e-6 * (1 + float(Xf_[j].abs().max()))
+                if not same:
+                    ctx.fail(dict(case, item=j), f"split: {what} on a batch of shape {shape} differs from the same call on the parts [:{a}] and [{a}:] "
+                                                 f"at item {j} by {float((Yf[j] - Xf_[j]).abs().max()):.3e} — not an equally good answer")
+                    ok = False
+                    break
+    flatX = Xr.reshape(B, dim)
+    fs, ft = src.reshape((B,) + tuple(src.shape[len(shape):])), tgt.reshape((B,) + tuple(tgt.shape[len(shape):]))
+    r = random.Random(spec["seed"])
+    for i in sorted({0, B - 1, B // 2, r.randrange(B), r.randrange(B)}):
+        Xi = raw(f(fs[i:i + 1], ft[i:i + 1]))[0]
+        if not torch.equal(Xi, flatX[i]):
+            dd = float((Xi.double() - flatX[i].double()).abs().max())
+            ctx.count("large.single-last-bit-items")
+            if dd > 1e3 * eps * (1 + float(flatX[i].double().abs().max())) and what != "ICP":
+                # (an ill-conditioned item may legitimately differ more; the property oracle below judges both)
+                ctx.count("large.single-differs")
+        # the property on the sampled item (incl. the LAST one)
+        if what in ("svdtf", "svdstf"):
+            s64, t64 = fs[i].double(), ft[i].double()
+            st = U.stats(s64, t64)
+            if st["A"] > 0 and st["B"] > 0:
+                ci = U.cost_vec(flatX[i].double(), s64, t64)
+                sc = float(flatX[i][7]) if what == "svdstf" else 1.0
+                cent = 1 + st["Ds"] / st["ss"] + st["Dt"] / st["st"]
+                tol = cost_tol(eps, st, sc, cent) + 64 * common.EPS["float64"] * (st["A"] * sc * sc + st["B"])
+                best = min([cost_srt(s_, R_, t_, s64, t64) for s_, R_, t_ in sign_candidates(s64, t64, what == "svdstf" and spec.get("with_scale", True))] or [ci])
+                nq = float(flatX[i][3:7].double().norm())
+                if abs(nq - 1) > UNIT_TOL * eps or not (ci <= best + tol):
+                    ctx.fail(dict(case, item=i), f"optimality: item {i} of {B} of a batched {what} call: |q| = {nq!r}, sum of squared residuals {ci:.6e}, "
+                                                 f"best proper sign choice of an independent float64 SVD {best:.6e} (allowance {tol:.2e})")
+                    ok = False
+        elif what == "ICP":
+            s64, t64 = fs[i].double(), ft[i].double()
+            D = float(max(s64.abs().max(), t64.abs().max()))
+            delta = ICP_DELTA_K * eps * D
+            E0, En = U.mscd(s64, t64), U.mscd(U.apply_vec(flatX[i].double(), s64), t64)
+            if not (En <= E0 + delta * delta + 2 * delta * math.sqrt(E0) + 64 * eps * E0):
+                ctx.fail(dict(case, item=i), f"monotone: item {i} of {B} of a batched ICP call: mean squared closest-point distance {En:.6e} > {E0:.6e}")
+                ok = False
+        else:
+            e_ = P.SE3(flatX[i].reshape(1, 7).clone())
+            err = float(P.reprojerr(fs[i:i + 1], ft[i:i + 1], Kc, e_, reduction="norm").max())
+            if not (err <= (1e-3 if dtype == "float64" else 50.0)):
+                ctx.fail(dict(case, item=i), f"reproject: item {i} of {B} of a batched EPnP call has reprojection error {err:.3e} px on exact projections")
+                ok = False
+    return ok
+
+
+def run_large(ctx: Ctx):
+    specs = [{"kind": "large", "what": "svdtf", "shape": [65537], "N": 3, "dtype": "float32", "seed": 11},
+             {"kind": "large", "what": "svdtf", "shape": [16385], "N": 4, "dtype": "float64", "seed": 12},
+             {"kind": "large", "what": "svdtf", "shape": [257, 255], "N": 3, "dtype": "float64", "seed": 13},
+             {"kind": "large", "what": "svdstf", "shape": [65537], "N": 4, "dtype": "float64", "seed": 14},
+             {"kind": "large", "what": "svdstf", "shape": [16383, 2], "N": 3, "dtype": "float32", "seed": 15},
+             {"kind": "large", "what": "svdstf", "shape": [16385], "N": 5, "dtype": "float32", "seed": 16, "with_scale": False},
+             {"kind": "large", "what": "ICP", "shape": [4097], "N": 5, "dtype": "float32", "seed": 17, "passes": 2},
+             {"kind": "large", "what": "ICP", "shape": [1025], "N": 6, "dtype": "float64", "seed": 18, "passes": 3},
+             {"kind": "large", "what": "EPnP", "shape": [1025], "N": 6, "dtype": "float64", "seed": 19},
+             {"kind": "large", "what": "EPnP", "shape": [257], "N": 12, "dtype": "float64", "seed": 20}]
+    if not ctx.quick:
+        r = random.Random(ctx.seed + 5)
+        for _ in range(20):
+            k_ = r.choice([8, 10, 12, 14, 16])
+            Bn = 2 ** k_ + r.choice([-1, 0, 1])
+            what = r.choice(["svdtf", "svdstf", "svdtf", "svdstf", "ICP"])
+            if what == "ICP":
+                Bn = min(Bn, 4097)
+            specs.append({"kind": "large", "what": what, "shape": [Bn], "N": r.choice([3, 4, 5, 8]), "dtype": r.choice(["float32", "float64"]),
+                          "seed": r.randrange(1 << 20)})
+    for sp in specs:
+        ctx.note_case(("large", sp["what"], tuple(sp["shape"]), sp["N"], sp["dtype"]), True)
+        check_large(ctx, sp)
+
+
 # ----------------------------------------------------------------------------- entry points
 
 def run(ctx: Ctx):
@@ -2304,6 +2643,8 @@ def run(ctx: Ctx):
     specs = icp_corner_specs() + [random_icp_spec(rng) for _ in range(ctx.pick(50, 1500))]
     run_icp(ctx, specs)
     especs = epnp_corner_specs() + [epnp_spec(rng) for _ in range(ctx.pick(60, 3000))]
+    run_icp_kernel(ctx, ctx.pick(30, 1200))
+    run_large(ctx)
     run_epnp(ctx, especs)
     run_epnp_scale(ctx, ctx.pick(40, 1500))
     run_histories(ctx, ctx.pick(6, 70), ctx.pick(5, 60))
@@ -2347,6 +2688,12 @@ def replay(ctx: Ctx, case) -> bool:
         c.pop("kind")
         c.pop("call", None)
         check_epnp_case(ctx, c)
+    elif kind == "large":
+        c.pop("item", None)
+        check_large(ctx, c)
+    elif kind == "icp_kernel":
+        c.pop("item", None)
+        check_icp_kernel(ctx, c)
     elif kind == "epnp_scale":
         c.pop("item", None)
         drive(ctx, [check_epnp_scale_gen(ctx, c)])
